@@ -305,6 +305,67 @@ Definition check_glue (ipv6 : bool) (local : list ipaddr) (level : nat) (qname :
   mk_gr s4 f4 f6 a4 a6.
 
 (* ------------------------------------------------------------------ *)
+(* the NS-address cache (Resolver.glueV4) as state, across referrals       *)
+
+(* searchAddrs on the answer of an address lookup for an NS host (A question) *)
+Definition search_addrs (local : list ipaddr) (answer : list rr) : list ipaddr :=
+  flat_map (fun r =>
+    match rr_data r with
+    | RdA ip =>
+        if rr_type r =? T_A then match usable_addr local ip with Some (IP4 v) => [IP4 v] | _ => [] end
+        else if rr_type r =? T_AAAA then match usable_addr local ip with Some a => [a] | None => [] end
+        else []
+    | _ => []
+    end) answer.
+
+Definition glue_cache := list (name * list ipaddr).
+Fixpoint glue_lookup (n : name) (c : glue_cache) : option (list ipaddr) :=
+  match c with
+  | [] => None
+  | (m, v) :: r => if name_eqb n m then Some v else glue_lookup n r
+  end.
+(* glueV4.Add(key(name), addrs): one entry per (case-folded) name, the last write wins *)
+Fixpoint glue_put (n : name) (addrs : list ipaddr) (c : glue_cache) : glue_cache :=
+  match c with
+  | [] => [(canon n, addrs)]
+  | (m, v) :: r => if name_eqb n m then (m, addrs) :: r else (m, v) :: glue_put n addrs r
+  end.
+
+Fixpoint answers_get (h : name) (answers : list (name * list rr)) : option (list rr) :=
+  match answers with
+  | [] => None
+  | (n, a) :: r => if name_eqb n h then Some a else answers_get h r
+  end.
+
+(* one referral as processDelegation handles it on the uncached path:
+   checkGlueRR(resp, hosts, level) files the accepted glue, then lookupV4Nss resolves every NS
+   host that got no glue - from the cache if the host is on file, otherwise by an address lookup
+   ([answers]: what those lookups return; a host missing there fails to resolve) *)
+Inductive glue_event :=
+| GlueReferral (level : nat) (qname : name) (hosts : list name) (extra : list rr) (answers : list (name * list rr)).
+
+Definition lookup_step (local : list ipaddr) (answers : list (name * list rr)) (c : glue_cache) (h : name) : glue_cache :=
+  match glue_lookup h c with
+  | Some v => glue_put h v c
+  | None =>
+      match answers_get h answers with
+      | Some ans => match search_addrs local ans with [] => c | a => glue_put h a c end
+      | None => c
+      end
+  end.
+
+Definition glue_apply (local : list ipaddr) (c : glue_cache) (e : glue_event) : glue_cache :=
+  match e with
+  | GlueReferral level qname hosts extra answers =>
+      let g := check_glue false local level qname hosts extra in
+      let c1 := fold_left (fun c p => glue_put (fst p) (snd p) c) (gr_addrs4 g) c in
+      fold_left (fun c h => if mem_name h (gr_found4 g) then c else lookup_step local answers c h) hosts c1
+  end.
+
+Definition glue_history (local : list ipaddr) (evs : list glue_event) : glue_cache :=
+  fold_left (glue_apply local) evs [].
+
+(* ------------------------------------------------------------------ *)
 (* cache: filterCacheableAnswer                                         *)
 
 Definition keep_cacheable (qn : name) (r : rr) : bool :=
@@ -371,6 +432,70 @@ Fixpoint scan_answer (q : question) (answer : list rr) (pending : option name) :
 Definition chase_applies (q : question) (rcode : N) : bool :=
   negb ((q_type q =? T_CNAME) || (q_type q =? T_DS)) && negb (rcode =? RC_NXDOMAIN).
 
+(* ------------------------------------------------------------------ *)
+(* Cache.additionalAnswer in full: the alias chase.  Every sub-query goes through
+   Cache.internalExchange (the whole pipeline again); what it returns is the [oracle]
+   (the rest of the namespace as the resolver sees it), keyed by the exact target string. *)
+Inductive subresp :=
+| SubErr                                                   (* error / no response *)
+| SubResp (rcode : N) (answer : list rr) (has_ns : bool).   (* a response; has_ns: its Authority is non-empty *)
+Definition oracle := list (name * subresp).
+Fixpoint oracle_get (t : name) (o : oracle) : subresp :=
+  match o with
+  | [] => SubErr
+  | (n, r) :: rest => if bytes_list_eqb n t then r else oracle_get t rest
+  end.
+Fixpoint mem_exact (t : name) (l : list name) : bool :=
+  match l with [] => false | x :: r => bytes_list_eqb x t || mem_exact t r end.
+
+(* searchAdditionalAnswer: the target of the LAST alias in the sub-response *)
+Fixpoint last_cname_target (answer : list rr) (acc : option name) : option name :=
+  match answer with
+  | [] => acc
+  | r :: rest =>
+      if rr_type r =? T_CNAME
+      then match rr_data r with RdName t => last_cname_target rest (Some t) | _ => last_cname_target rest acc end
+      else last_cname_target rest acc
+  end.
+Definition has_type (ty : N) (answer : list rr) : bool := existsb (fun r => rr_type r =? ty) answer.
+
+Inductive chased :=
+| ChServfail                                  (* dnsutil.SetRcode(msg, SERVFAIL): a bare reply *)
+| ChMsg (rcode : N) (answer : list rr).
+
+(* the `lookup:` loop; [fuel] is cnameDepth (10), [targets] the names already asked *)
+Fixpoint chase_loop (fuel : nat) (q : question) (o : oracle) (rcode : N) (answer : list rr)
+         (target : name) (targets : list name) : chased :=
+  match fuel with
+  | O => ChMsg rcode answer
+  | S f =>
+      if mem_exact target targets then ChServfail else
+      match oracle_get target o with
+      | SubErr => ChMsg rcode answer
+      | SubResp rc ans ns =>
+          let merged := negb (match ans with [] => true | _ => false end) || ns in
+          let answer' := if merged then answer ++ ans else answer in
+          if rc =? RC_NXDOMAIN then ChMsg RC_NXDOMAIN answer'
+          else if negb merged then ChMsg rcode answer'
+          else match last_cname_target ans None with
+               | None => ChMsg rcode answer'
+               | Some t' =>
+                   if bytes_list_eqb t' (q_name q) then ChServfail
+                   else if Nat.ltb 0 f && negb (has_type (q_type q) ans)
+                        then chase_loop f q o rcode answer' t' (targets ++ [target])
+                        else ChMsg rcode answer'
+               end
+      end
+  end.
+
+Definition additional_answer (q : question) (rcode : N) (answer : list rr) (o : oracle) : chased :=
+  if negb (chase_applies q rcode) then ChMsg rcode answer else
+  match scan_answer q answer None with
+  | ScanComplete | ScanNothing => ChMsg rcode answer
+  | ScanLoop => ChServfail
+  | ScanChase t => chase_loop 10 q o rcode answer t []
+  end.
+
 (* Resolver.answer begins with resp.Answer = dnsutil.FilterRRsToZone(resp.Answer, zone): records
    owned outside the zone whose servers answered are dropped before anything else looks at them *)
 Definition in_zone_answer (auth : name) (a : list rr) : list rr := filter (fun r => is_sub auth (rr_owner r)) a.
@@ -399,6 +524,13 @@ Definition relay_exact (auth : name) (q : question) (m : umsg) : bool :=
         match scan_answer q (in_zone_answer auth a) None with ScanChase _ => false | _ => true end
       else true
   | _ => true
+  end.
+
+(* the reply the client gets for a positive final-hop answer: answer() filter, then the cache's chase *)
+Definition client_reply (auth : name) (q : question) (m : umsg) (o : oracle) : option chased :=
+  match dispose auth q m with
+  | DAnswer a => Some (additional_answer q (relay_rcode m) (in_zone_answer auth a) o)
+  | _ => None
   end.
 
 (* what the answer cache keeps for the question: key = the question, records = cacheable_answer *)
